@@ -801,10 +801,13 @@ func oracle(args []string) {
 	}
 	r := rng.FromEnv(1515)
 	for _, c := range corpusCases(*corpus) {
-		if len(c.Order) != nflags {
-			c.Order = perm(r)
+		if len(c.Order) == nflags {
+			run(c)
 		}
-		run(c)
+		for q := 0; q < 3; q++ {
+			c.Order = perm(r)
+			run(c)
+		}
 	}
 	fx := loadFixtures()
 	if len(fx) == 0 {
